@@ -121,6 +121,31 @@ let verdict case impl =
     if obs = m then "ok"
     else if not (prop_pk_token_ok p values (parse_token obs)) then "viol model=" ^ m
     else "diff model=" ^ m
+  | ["P"; name; data], [o_from; o_tok] ->
+    (* partitioner selection: from_str, then name.and_then(from_str).unwrap_or_default() hashing *)
+    let name = if name = "N" then None else Some (chars_of_hexstr (String.sub name 1 (String.length name - 1))) in
+    let data = bytes_of_hexstr data in
+    let pstr = function None -> "none" | Some PMurmur3 -> "m" | Some PCdc -> "c" in
+    let m_from = (match name with None -> "na" | Some s -> pstr (partitioner_from_str s)) in
+    let tp = table_partitioner name in
+    let m_tok = hex_of_z (feed tp [data]) in
+    if o_from = m_from && o_tok = m_tok then "ok"
+    else begin
+      (* property: a table naming ...CDCPartitioner gets the CDC token, ...Murmur3Partitioner the Murmur3 one *)
+      let want = (match name with
+          | Some s when ends_with s cdc_suffix -> Some (token_spec PCdc data)
+          | Some s when ends_with s murmur3_suffix -> Some (token_spec PMurmur3 data)
+          | _ -> None) in
+      match want with
+      | Some t when o_tok <> hex_of_z t -> "viol spec=" ^ hex_of_z t ^ " model=" ^ m_from ^ ";" ^ m_tok
+      | _ -> "diff model=" ^ m_from ^ ";" ^ m_tok
+    end
+  | ["S"; data], [r1; r2] ->
+    (* census-style tie of the SPECIFICATION: hash3_x64_128 against the independent reference of
+       checks/c03.py; a mismatch is a broken correspondence of the spec, never a violation *)
+    let (h1, h2) = hash3_x64_128 (bytes_of_hexstr data) in
+    if hex_of_z h1 = r1 && hex_of_z h2 = r2 then "ok"
+    else "diff spec=" ^ hex_of_z h1 ^ "," ^ hex_of_z h2
   | _ -> "error unknown-case"
 
 let () = run_lines verdict
